@@ -30,7 +30,7 @@ MENU = collections.OrderedDict([
     ('hour', [0, 23]), ('minute', [0]), ('second', [59]), ('microsecond', [0]),
     ('weekday', [(0, 'int'), (0, None), (0, 1), (0, 0), (0, -1), (1, 2), (6, 1), (6, 'int'), (1, None)]),
 ])
-SCALARS = [2, -1, 0.5, 3, 1, 0]
+SCALARS = [2, -1, 0.5, 3, 1, 0, -0.5, 1.5, 10, 0.001, -7]
 DATES = [D.datetime(2000, 2, 29, 12, 0), D.datetime(2003, 9, 17), D.date(2001, 1, 31)]
 
 
@@ -278,7 +278,7 @@ def replay(part, case):
 
 def run(ctx):
     ref.selftest()
-    k = ctx.pick(2, 3)
+    k = ctx.pick(3, 4)
     us = list(shape.shapes(MENU, k))
     ctx.explore('unary-k<=%d' % k, us, 'eval_unary', chunk=128, space_size=shape.space_size(MENU, k))
     n2 = len(objs(2)[0])
